@@ -760,6 +760,16 @@ def sem_is_name(body, s, name, exact=False, first_only=False):
                 continue
             return True
     # coroutine bodies copy upvars into locals: `x#1 = x`
+    # a function whose parameters were bundled into the type of `self` (inline.relocate_moved): the pinned parameter name
+    # names the field of self, however the body gets at it (destructuring, `self.x`, a local bound to it)
+    bundled = getattr(body.prog, 'bundled', None) if getattr(body, 'prog', None) is not None else None
+    if bundled:
+        own = re.sub(r'(::\{closure#\d+\})+$', '', body.path)
+        if name in (bundled.get(own) or []):
+            pj = [p for p in s.proj if p != 'deref']
+            selfs = [pl['l'] for n, pl in body.names.items() if n.split('#')[0] == 'self' and not pl['p']]
+            if s.local in selfs and pj and pj[0].startswith('field:') and pj[0].split(':', 2)[2] == name:
+                return True
     return False
 
 
@@ -1788,3 +1798,31 @@ def exit_sem(body, x):
     if x['kind'] == 'const':
         return sem(body, x['op'])
     return Sem('other')
+
+
+def pinned_args(body, cs, names):
+    """the operands a call passes for the pinned parameter names `names` of its callee (in that order).  Normally
+    that is positional; if the callee's parameters were bundled into the type of `self` (inline.relocate_moved) the operand is
+    the field of the `self` aggregate built at the call site, or one of the remaining parameters by its own name."""
+    P = body.prog
+    bundled = getattr(P, 'bundled', {}) or {}
+    callee = cs.callee
+    if callee not in bundled:
+        return {n: (cs.args[i] if i < len(cs.args) else None) for i, n in enumerate(names)}
+    out = {n: None for n in names}
+    hb = P.get(callee)
+    selfv = sem(body, cs.args[0]) if cs.args else None
+    fields = {}
+    if selfv is not None and selfv.kind == 'agg' and isinstance(selfv.extra, dict) and selfv.extra.get('fields'):
+        fields = dict(zip(selfv.extra['fields'], selfv.extra['a']))
+    own = {}
+    if hb is not None:
+        for nm, pl in hb.names.items():
+            if not pl['p'] and 1 <= pl['l'] <= hb.argc and '#' not in nm:
+                own[nm] = pl['l'] - 1
+    for n in names:
+        if n in fields:
+            out[n] = fields[n]
+        elif n in own and own[n] < len(cs.args):
+            out[n] = cs.args[own[n]]
+    return out
